@@ -12,8 +12,10 @@ TRACE = "CollectionTrace"
 
 METAS = [{}, {"a": 1}, {"big": [2 ** 53, 2 ** 53 + 1, -(2 ** 60), 2 ** 63 - 1], "nested": {"id": 9007199254740993}, "f": 1e300}, {"lab": "x", "n": [1, 2, 3], "nested": {"k": None, "t": True, "f": 1.5}},
          {"unicode": "café 中", "empty": [], "s": "with \"quotes\" and \\ backslash"},
-         {"list": [{"a": [1, [2, [3]]]}, "z", 0, -1, 1e3], "big": 2 ** 40}, {"protocol": "dilution", "enzyme": "MboI", "cell-type": "GM12878"}]
-ASSEMBLIES = ["hg19", "mm10", "T2T-CHM13v2.0", "my assembly", "dm6_r6.40"]
+         {"list": [{"a": [1, [2, [3]]]}, "z", 0, -1, 1e3], "big": 2 ** 40}, {"protocol": "dilution", "enzyme": "MboI", "cell-type": "GM12878"},
+         # JSON documents that are not objects, and the "falsy" ones among them
+         [], [1, "two"], 0, False, ""]
+ASSEMBLIES = ["hg19", "mm10", "T2T-CHM13v2.0", "my assembly", "dm6_r6.40", ""]
 
 
 def compositions_with_empty(total, rng):
